@@ -260,6 +260,31 @@ def run_outer(c, tier):
                         c.fail('C07|outer|value|%s|%s' % ('equal' if na == nb else 'different', kinds), case, {'got_shape': list(z.data.shape)})
 
 
+def run_same_object(c, tier):
+    """both operands the very same object: outer(x, x), dot(x, x) (vector), dot(A, A) (matrix) equal the product with an
+    independent copy, bit for bit"""
+    for D in DMENU[tier]:
+        for P in (1, 2):
+            for n in (1, 2, 3, 4):
+                X = dyfill((D, P, n), 3 + D)
+                A = dyfill((D, P, n, n), 4 + P)
+                for nm, f, dat in (('outer(x,x)', algopy.outer, X), ('dot(x,x)', algopy.dot, X), ('dot(A,A)', algopy.dot, A)):
+                    x = UTPM(dat.copy())
+                    c.out['evals'] += 1
+                    c.out['keys'].append('same|%s|%d|%d|%d' % (nm, n, D, P))
+                    case = {'op': nm, 'n': n, 'D': D, 'P': P}
+                    try:
+                        got = f(x, x).data
+                        ref = f(UTPM(dat.copy()), UTPM(dat.copy())).data
+                    except Exception as ex:
+                        c.fail('C07|%s same object|raises' % nm, case, {'error': str(ex)[:160]})
+                        continue
+                    if got.shape != ref.shape or not np.array_equal(got, ref):
+                        c.fail('C07|%s same object|differs from the product with a copy' % nm, case, {})
+                    elif not np.array_equal(x.data, dat):
+                        c.fail('C07|%s same object|operand modified' % nm, case, {})
+
+
 # ---------------------------------------------------------------- inv / solve / det / logdet
 def check_residual(c, name, A, X, B, case, condmax):
     """A: (D,P,N,N) float, X: (D,P,N,K) float output, B: (D,P,N,K) float: exact residual A X - B per direction"""
@@ -532,6 +557,7 @@ def run_unit(u):
         run_dot(c, u['tier'])
     elif k == 'outer':
         run_outer(c, u['tier'])
+        run_same_object(c, u['tier'])
     elif k == 'lin':
         run_lin(c, u)
     elif k == 'deviations':
